@@ -60,8 +60,12 @@ func genC18(c *Chooser) *c18Graph {
 		j := i - c.Int("world.deforder", i+1)
 		order[i], order[j] = order[j], order[i]
 	}
-	shape := c.Int("world.shape", 6)
+	shape := c.Int("world.shape", 7)
 	allowDangling := c.Weighted("world.dangle", 1, 4)
+	posOf := make([]int, n) // position of each vertex in the definition order
+	for i, v := range order {
+		posOf[v] = i
+	}
 	for _, v := range order {
 		job := c18Job{ID: c18Case(c, c18Names[v])}
 		for w := 0; w < n; w++ {
@@ -91,8 +95,14 @@ func genC18(c *Chooser) *c18Graph {
 				if (v < n/2) == (w < n/2) {
 					p = 5
 				}
+			case 6: // top-down workflow: every job only needs jobs defined earlier in the file - plus self loops
+				if posOf[w] < posOf[v] {
+					p = 5
+				} else if w == v {
+					p = 4
+				}
 			}
-			if w == v && p > 0 {
+			if w == v && p > 0 && shape != 6 {
 				p = 1 // self loops rarer
 			}
 			if p > 0 && c.Weighted("world.edge", p, 12) {
@@ -214,7 +224,62 @@ var (
 	reDupNeeds = regexp.MustCompile(`duplicates in "needs" section`)
 )
 
+// c18Multi lints several graphs as several files of one LintFiles call (the
+// rule runs concurrently for all of them) and checks every file exactly.
+func c18Multi(c *Chooser, env *Env) *Outcome {
+	o := &Outcome{}
+	disk := kern.NewDisk()
+	disk.MkdirAll("/w/r/.git")
+	n := 2 + c.Int("world.nfiles", 3)
+	var graphs []*c18Graph
+	var models []*c18Model
+	w := &World{Disk: disk, Cwd: "/w/r", CPUs: []int{2, 1, 4}[c.Int("world.cpus", 3)], API: APIFiles, Note: "C18 several needs graphs in one run"}
+	for i := 0; i < n; i++ {
+		g := genC18(c)
+		src := g.yaml(c)
+		p := fmt.Sprintf(".github/workflows/g%d.yml", i)
+		disk.Put("/w/r/"+p, []byte(src))
+		w.Files = append(w.Files, p)
+		graphs = append(graphs, g)
+		models = append(models, g.model())
+	}
+	o.World = w
+	res := RunLint(w, c, RunOpts{KeepTrace: env.KeepTrace})
+	o.addRun(res.K)
+	if env.KeepTrace {
+		o.Traces = append(o.Traces, res.K.Trace)
+	}
+	o.Nontrivial = res.K.MaxRunnable >= 2
+	o.Sig = w.Hash() ^ res.K.TraceHash ^ res.ModeSig
+	o.Sample = map[string]any{"files": n, "diagnostics": len(res.Errs), "tasks": res.K.Tasks, "kernel_steps": res.K.Steps}
+	if v := runFailure("C18", res.K); v != nil {
+		o.V = v
+		return o
+	}
+	if res.Fatal != "" {
+		o.V = &Violation{Oracle: "no-fatal", Class: "fatal", Message: "linting well-formed needs graphs returned a fatal error: " + res.Fatal}
+		return o
+	}
+	for i := range graphs {
+		var mine []ErrRec
+		for _, e := range res.Errs {
+			if e.File == w.Files[i] {
+				mine = append(mine, e)
+			}
+		}
+		if v := c18Check(graphs[i], models[i], mine); v != nil {
+			v.Message = fmt.Sprintf("file %s of a %d-file run: %s", w.Files[i], n, v.Message)
+			o.V = v
+			return o
+		}
+	}
+	return o
+}
+
 func (c18) Eval(c *Chooser, env *Env) *Outcome {
+	if env.Variant == "multi" {
+		return c18Multi(c, env)
+	}
 	g := genC18(c)
 	src := g.yaml(c)
 	m := g.model()
